@@ -90,13 +90,13 @@ CeilLists ==
                        <<AT(LNK)>>, <<A(P \o <<"q", "..">>)>>, <<E, A(P \o <<"q", "..">>)>>, <<R(<<"p">>), A(Q)>>,
                        <<E, R(<<"p">>), A(P)>>, <<A(<<>>)>> } ELSE {})
 
-\* ceilings only matter below them: they are combined with the start directories below P (all, when Wide)
+\* ceilings only matter below them: the lists are combined with the start directories below P
 Queries(fs) ==
   UNION { { [cwd |-> f[1], start |-> f[2], ceil |-> <<>>] : f \in Forms(fs, n) }
-          \cup (IF Wide \/ IsPrefix(P, n)
+          \cup (IF IsPrefix(P, n)
                 THEN { [cwd |-> W, start |-> Abs(n), ceil |-> c] : c \in CeilLists }
                      \cup { [cwd |-> n, start |-> Rel(<<".">>), ceil |-> c] : c \in { <<A(P)>>, <<A(Q)>> } }
-                ELSE { [cwd |-> W, start |-> Abs(n), ceil |-> <<A(W)>>] })
+                ELSE { [cwd |-> W, start |-> Abs(n), ceil |-> c] : c \in { <<A(W)>> } \cup (IF Wide THEN { <<A(M)>>, <<A(P)>> } ELSE {}) })
         : n \in StartDirs(fs) }
 
 B(i, s, d) == [incl |-> i, skip |-> s, dotgit |-> d]
